@@ -957,8 +957,8 @@ func init() {
 		{"R7", "the buffer length is only ever tested relative to a position: no branch in a resumable function compares len(buf) with a constant alone — such a test measures from byte 0, not from the continuation offset, and answers differently for offs > 0 or a resumed call", ruleR7},
 		{"R8", "an offset handed back after input was consumed is a position of the scan: in a resumable function no return of the bare offs parameter is dominated by a call to a streaming callee (a resumed call starts elsewhere than a one-shot call, so the reported offset would differ)", ruleR8},
 		{"R9", "ParseTokenParam suspends before the whitespace it cannot classify yet: in every token state the more-bytes exit taken on whitespace returns the position before it (shared with C17-L2), which the step-back return and the trimming of a resumed call rely on", ruleR9},
-		{"R10", "the automata of the three small header-value parsers (ParseCSeqVal, ParseCallIDVal, ParseUIntVal) equal their reviewed reference tables (ref/*.txt): state x byte class -> next state / exit, verdicts, field actions, returned offset", func(c *Ctx) {
-			for _, f := range []string{"ParseCSeqVal", "ParseCallIDVal", "ParseUIntVal"} {
+		{"R10", "the automata of the three small header-value parsers (ParseCSeqVal, ParseCallIDVal, ParseUIntVal) and of the two stateless scanners (SkipQuoted, skipLWS) equal their reviewed reference tables (ref/*.txt): state x byte class -> next state / exit, verdicts, field actions, returned offset", func(c *Ctx) {
+			for _, f := range []string{"ParseCSeqVal", "ParseCallIDVal", "ParseUIntVal", "SkipQuoted", "skipLWS"} {
 				fsmRefRule(c, "R10", f)
 			}
 		}},
